@@ -157,6 +157,8 @@ pub enum Family {
 pub struct ChainBranch {
     /// statements defining caller-side locals the branch borrows from (emitted on both sides)
     pub locals: Vec<String>,
+    /// `let [mut] name =` written in front of the branch on the macro side only
+    pub let_name: Option<(String, bool)>,
     pub init_ty: Ty,
     pub init_text: String,
     pub ops: Vec<COp>,
@@ -1048,7 +1050,11 @@ fn render_ops(ops: &[COp], out: &mut String) {
 }
 
 pub fn render_branch_macro(b: &ChainBranch) -> String {
-    let mut s = b.init_text.clone();
+    let mut s = match &b.let_name {
+        // C12: a `let` name in front of a branch does not change what the branch evaluates to
+        Some((n, m)) => format!("let {}{} = {}", if *m { "mut " } else { "" }, n, b.init_text),
+        None => b.init_text.clone(),
+    };
     render_ops(&b.ops, &mut s);
     s
 }
